@@ -649,8 +649,200 @@ theorem sni_label_is_first_label {sni dom : Str} (h : isImmediateSubdomain (lowe
 example : isImmediateSubdomain (lower "Dev1.d.example".toList) "d.example".toList = true ∧
     sniLabel "Dev1.d.example".toList = "Dev1".toList := by decide
 
+/-! ## Production wiring (round 5): from the configuration file to recognition
+
+`srvOfConf` is the model of `serverGroups.toInternal` / `tlsConfig.toInternal` / `servers.toInternal` /
+`serverProto.toInternal` / `dnssvc.newDeviceFinder`; `validWildcards` of `validateDeviceIDWildcards`.  The
+statements below speak about the configuration file only. -/
+
+theorem protoOfYAML_doh {n : Str} (h : protoOfYAML n = .doh) : n = "https".toList := by
+  unfold protoOfYAML at h
+  split at h
+  · cases h
+  split at h
+  · cases h
+  split at h
+  · assumption
+  split at h
+  · cases h
+  split at h
+  · cases h
+  cases h
+
+theorem protoOfYAML_dns {n : Str} (h : protoOfYAML n = .dns) : n = "dns".toList := by
+  unfold protoOfYAML at h
+  split at h
+  · assumption
+  split at h
+  · cases h
+  split at h
+  · cases h
+  split at h
+  · cases h
+  split at h
+  · cases h
+  cases h
+
+theorem protoOfYAML_enc {n : Str} (h : (protoOfYAML n).isStdEncrypted = true) :
+    n = "https".toList ∨ n = "quic".toList ∨ n = "tls".toList := by
+  unfold protoOfYAML at h
+  split at h
+  · simp [Proto.isStdEncrypted] at h
+  split at h
+  · simp [Proto.isStdEncrypted] at h
+  split at h
+  · left; assumption
+  split at h
+  · right; left; assumption
+  split at h
+  · right; right; assumption
+  · simp [Proto.isStdEncrypted] at h
+
+theorem srvOfConf_no_interfaces (g : GroupConf) (c : SrvConf) : (srvOfConf g c).bindsToInterfaces = false := by
+  unfold srvOfConf Srv.bindsToInterfaces
+  cases c.binds <;> simp
+
+theorem wildcard_of_domain {ws : List Str} {dom : Str} (hv : validWildcards ws = true)
+    (h : dom ∈ ws.map trimStarDot) : ('*' :: '.' :: dom) ∈ ws := by
+  obtain ⟨w, hw, rfl⟩ := List.mem_map.1 h
+  have hall : ∀ x ∈ ws, ['*', '.'].isPrefixOf x = true := by
+    have := hv; unfold validWildcards at this
+    simp only [Bool.and_eq_true, List.all_eq_true] at this
+    exact this.1
+  have hp := hall w hw
+  match w, hp, hw with
+  | '*' :: '.' :: r, _, hw => simpa [trimStarDot] using hw
+  | [], hp, _ => simp at hp
+  | [a], hp, _ => simp [List.isPrefixOf] at hp
+  | a :: b :: r, hp, hw =>
+    simp [List.isPrefixOf] at hp
+    obtain ⟨rfl, rfl⟩ := hp
+    simpa [trimStarDot] using hw
+
+/-- "Carries the device's identifier", read on the configuration file: the TLS server name counts only
+under a wildcard `*.<domain>` listed in *this* group's `tls.device_id_wildcards`, the client address
+only on a `dns` server whose own `linked_ip_enabled` is set, and with `bind_addresses` there is no
+dedicated-address channel at all. -/
+inductive PresentsWired (g : GroupConf) (c : SrvConf) (rq : Req) (p : Profile) (d : Device) : Prop
+  | dohUser (pw : Option Str) : c.proto = "https".toList → rq.userinfo = some (d.id, pw) → PresentsWired g c rq p d
+  | dohPath (e : Str) : c.proto = "https".toList → rq.userinfo = none → e ∈ splitOn '/' rq.path → Names e p d →
+      PresentsWired g c rq p d
+  | sni (e dom : Str) : (c.proto = "https".toList ∨ c.proto = "quic".toList ∨ c.proto = "tls".toList) →
+      (c.proto = "https".toList → rq.userinfo = none) → ('*' :: '.' :: dom) ∈ g.wildcards → e <+: rq.sni →
+      lower rq.sni = lower e ++ '.' :: dom → '.' ∉ lower e → Names e p d → PresentsWired g c rq p d
+  | edns (opts : List EOpt) (o : EOpt) : c.proto = "dns".toList → rq.edns = some opts → o ∈ opts →
+      o.code = 65074 → o.data = d.id → PresentsWired g c rq p d
+  | linked : c.proto = "dns".toList → c.linked = true → d.linkedIP = some rq.rip → PresentsWired g c rq p d
+
+/-- **wired_recognised_presents.**  For every accepted configuration (`validWildcards`), every group and
+server of it, every request and well-formed database: a request that server `c` of group `g` attributes
+to `(p, d)` was served by a group with `profiles_enabled`, presents `d`'s identifier in the sense of
+`PresentsWired` (on the unmapped addresses), `d` is listed in the live profile `p`, and the
+authentication policy is met. -/
+theorem wired_recognised_presents (g : GroupConf) (c : SrvConf) (db : DB) (rq : Req) (p : Profile) (d : Device)
+    (hv : validWildcards g.wildcards = true) (hwf : db.WF) (h : findWired g c db rq = .ok p d) :
+    g.profiles = true ∧ PresentsWired g c (normAddrs rq) p d ∧ d.id ∈ p.devices ∧ p.deleted = false ∧
+      AuthMet (srvOfConf g c) (normAddrs rq) d := by
+  obtain ⟨hen, hf⟩ := findIn_ok _ _ db _ p d h
+  have h1 := recognised_only_own_id _ db _ p d hf
+  refine ⟨hen, ?_, (recognised_device_is_own _ db _ p d hwf hf).1, h1.2.1, h1.2.2⟩
+  have hp := recognised_presents_own_identifier _ db _ p d hwf hf
+  cases hp with
+  | dohUser pw hdoh hui => exact .dohUser pw (protoOfYAML_doh hdoh) hui
+  | dohPath e hdoh hui he hn => exact .dohPath e (protoOfYAML_doh hdoh) hui he hn
+  | sni e dom henc hu hdom hpre hlow hdot hn =>
+    refine .sni e dom (protoOfYAML_enc henc) ?_ (wildcard_of_domain hv hdom) hpre hlow hdot hn
+    intro hc; apply hu; simp [srvOfConf, hc, protoOfYAML]
+  | edns opts o hdns hopts ho hcode hdata => exact .edns opts o (protoOfYAML_dns hdns) hopts ho hcode hdata
+  | address ha =>
+    obtain ⟨hdns, hor⟩ := ha
+    rcases hor with ⟨hb, -, -⟩ | ⟨hl, hd⟩
+    · rw [srvOfConf_no_interfaces] at hb; cases hb
+    · exact .linked (protoOfYAML_dns hdns) hl hd
+
+/-- **wired_profiles_disabled_anonymous.**  A group with `profiles_enabled: false` never recognises,
+whatever its wildcards, servers and the other groups of the file say. -/
+theorem wired_profiles_disabled_anonymous (g : GroupConf) (c : SrvConf) (db : DB) (rq : Req)
+    (h : g.profiles = false) : findWired g c db rq = .none := by
+  simp [findWired, findIn, h]
+
+/-- **wired_foreign_wildcard_never_recognises.**  On DoT / DoQ a server name that is not
+`<label>.<domain>` for a wildcard `*.<domain>` of the group's *own* list never leads to recognition —
+in particular not a name under a wildcard that only another group of the file lists. -/
+theorem wired_foreign_wildcard_never_recognises (g : GroupConf) (c : SrvConf) (db : DB) (rq : Req)
+    (p : Profile) (d : Device) (hv : validWildcards g.wildcards = true) (hwf : db.WF)
+    (hproto : c.proto = "quic".toList ∨ c.proto = "tls".toList)
+    (hno : ∀ e dom, ('*' :: '.' :: dom) ∈ g.wildcards → lower rq.sni ≠ lower e ++ '.' :: dom) :
+    findWired g c db rq ≠ .ok p d := by
+  intro h
+  obtain ⟨-, hp, -⟩ := wired_recognised_presents g c db rq p d hv hwf h
+  cases hp with
+  | dohUser pw hc _ => rcases hproto with h' | h' <;> simp [h'] at hc
+  | dohPath e hc _ _ _ => rcases hproto with h' | h' <;> simp [h'] at hc
+  | sni e dom _ _ hw _ hlow _ _ => exact hno e dom hw hlow
+  | edns opts o hc _ _ _ _ => rcases hproto with h' | h' <;> simp [h'] at hc
+  | linked hc _ _ => rcases hproto with h' | h' <;> simp [h'] at hc
+
+/-- **wired_dnscrypt_anonymous.**  A `dnscrypt` server — and any protocol name the file format does not
+know — never recognises. -/
+theorem wired_dnscrypt_anonymous (g : GroupConf) (c : SrvConf) (db : DB) (rq : Req)
+    (h : c.proto ≠ "dns".toList ∧ c.proto ≠ "https".toList ∧ c.proto ≠ "quic".toList ∧ c.proto ≠ "tls".toList) :
+    findWired g c db rq = .none := by
+  obtain ⟨h1, h2, h3, h4⟩ := h
+  have hp : supportsDeviceID (protoOfYAML c.proto) = false := by
+    unfold protoOfYAML
+    simp only [if_neg h1, if_neg h2, if_neg h3, if_neg h4]
+    split <;> rfl
+  unfold findWired findIn find
+  split
+  · rfl
+  · have : supportsDeviceID (srvOfConf g c).proto = false := hp
+    simp [this]
+
+/-- A reader of the wildcards that forgets to separate the groups (one list accumulated over the file)
+violates the statement: group 2 lists nothing, yet a name under group 1's wildcard is recognised. -/
+theorem wired_accumulated_domains_counterexample :
+    ∃ (g1 g2 : GroupConf) (c : SrvConf) (db : DB) (rq : Req),
+      validWildcards g1.wildcards = true ∧ g2.wildcards = [] ∧ db.WF ∧
+      isOK (findIn g2.profiles { srvOfConf g2 c with domains := deviceDomainsOf g1 ++ deviceDomainsOf g2 } db (normAddrs rq)) = true ∧
+      isOK (findWired g2 c db rq) = false := by
+  refine ⟨{ profiles := true, wildcards := ["*.d.example".toList] }, { profiles := true, wildcards := [] },
+    { proto := "tls".toList, linked := false, binds := [("192.0.2.2", 853)] }, exDB false false,
+    exReq none "" "dev1.d.example", by decide, rfl, ?_, by decide, by decide⟩
+  exact {
+    byID := fun i p d h => by
+      simp only [exDB] at h; split at h
+      · injection h with h1 h2; subst h1; subst h2; subst_vars; simp [exDev, exProf]
+      · cases h
+    byHuman := fun _ _ _ _ h => by simp [exDB] at h
+    auto := fun _ _ _ _ _ h => by simp [exDB] at h
+    linked := fun a p d h => by
+      simp only [exDB] at h; split at h
+      · injection h with h1 h2; subst h1; subst h2; subst_vars; simp [exDev, exProf]
+      · cases h
+    ded := fun _ _ _ h => by simp [exDB] at h }
+
+example : validWildcards ["*.d.dns.example".toList, "*.".toList, "*.D.dns.example".toList] = true ∧
+    validWildcards ["d.dns.example".toList] = false ∧
+    validWildcards ["*.a".toList, "*.a".toList] = false := by decide
+
+example : isOK (findWired { profiles := true, wildcards := ["*.d.example".toList] }
+    { proto := "tls".toList, linked := false, binds := [("192.0.2.2", 853)] } (exDB false false)
+    (exReq none "" "Dev1.D.example")) = true := by decide
+
+
 end Agd.Device
 
+#print axioms Agd.Device.protoOfYAML_doh
+#print axioms Agd.Device.protoOfYAML_dns
+#print axioms Agd.Device.protoOfYAML_enc
+#print axioms Agd.Device.srvOfConf_no_interfaces
+#print axioms Agd.Device.wildcard_of_domain
+#print axioms Agd.Device.wired_recognised_presents
+#print axioms Agd.Device.wired_profiles_disabled_anonymous
+#print axioms Agd.Device.wired_foreign_wildcard_never_recognises
+#print axioms Agd.Device.wired_dnscrypt_anonymous
+#print axioms Agd.Device.wired_accumulated_domains_counterexample
 #print axioms Agd.Device.recognised_only_own_id
 #print axioms Agd.Device.recognised_device_is_own
 #print axioms Agd.Device.doh_only_never_elsewhere
